@@ -32,6 +32,31 @@ def run(chk):
 
     tie_breaks, prop_fail, tags = [], [], {}
     nontrivial = set()
+    # process history: a file must not depend on what the process did before. threetwin has the column paths and
+    # repetition types of three but other physical types; each is written alone (fresh process: the reference, which is
+    # also validated by the independent parser below) and after an instance of the other in ONE process
+    tw = filelevel.load_zoos(pair, ["threetwin"]).get("threetwin")
+    t3 = zs.get("three")
+    hist_pairs = []
+    if tw is not None and t3 is not None:
+        for codec in (0, 1, 2):
+            a_ = filelevel.Case(t3, 2, codec, [("a", g.record(t3.nodes)) for _ in range(3)] + [("w",), ("c",)], "process-history")
+            b_ = filelevel.Case(tw, 2, codec, [("a", g.record(tw.nodes)) for _ in range(3)] + [("w",), ("c",)], "process-history")
+            hist_pairs += [(a_, b_), (b_, a_)]
+        wop = lambda c: "zoo-write %s %d %d %s" % (c.zoo.name, c.max, c.codec, c.go_ops)
+        for first, second in hist_pairs:
+            solo = pair.impl([wop(second)])[0].split(" ")[0]                       # fresh process
+            f1 = pair.impl([wop(first)])[0].split(" ")[0]
+            r = pair.impl([wop(first), "zoo-read %s %s" % (first.zoo.name, f1), wop(second)])      # ONE process
+            got = r[2].split(" ")[0]
+            if got != solo:
+                diff = next((i for i, (x, y) in enumerate(zip(got, solo)) if x != y), -1) // 2
+                prop_fail.append({"case": "%s\nAFTER (same process) %s" % (second.key()[:1500], first.key()[:1500]),
+                                  "key": {"zoo": second.zoo.name, "clause": "process-history"},
+                                  "clause": "the file written for struct %s differs (first at byte %d) from the one a fresh process writes when an instance for struct %s was used earlier in the process" % (second.zoo.name, diff, first.zoo.name),
+                                  "got": got[max(0, 2 * diff - 40):2 * diff + 80], "want": solo[max(0, 2 * diff - 40):2 * diff + 80]})
+            else:
+                nontrivial.add("history:" + second.key()[:200] + first.zoo.name)
     for name, z in zs.items():
         if z is None:
             prop_fail.append({"case": "zoo %s" % name, "key": {"zoo": name, "clause": "generated code unavailable"}, "clause": "parquetgen output for struct %s does not generate/compile: %s" % (name, cov["steps"]["zoo"].get(name)), "got": "-", "want": "-"})
@@ -53,7 +78,8 @@ def run(chk):
     cov.update({
         "obligations": pr["obligations"], "discharged": pr["discharged"], "axioms": pr["axioms"],
         "checker_cmd": "cd lean && lake build %s" % MODULE, "trusted_base": TRUSTED_BASE, "forbidden_constructs": pr["forbidden_constructs"],
-        "evaluations": len(cases), "distinct_nontrivial": len(nontrivial),
+        "process_history_pairs": len(hist_pairs),
+        "evaluations": len(cases) + len(hist_pairs), "distinct_nontrivial": len(nontrivial),
         "rule": "every file written for the C01 workloads (8 structs plus 2 writer-side ones, incl. nested groups 3 deep and same-named groups under different parents; structural enumeration, random, extremes; page sizes; 3 codecs) plus histories with empty writes and pending records, parsed by the independent Lean parser/validator PQ.parseFile (magic, footer length, thrift, schema tree vs struct columns, every offset/size/count/codec, page record limits and boundaries, exact level and value section lengths); non-trivial = distinct history whose file validates and whose parsed content equals the list-of-batches model",
         "samples": [cases[i].key()[:300] for i in (0, len(cases) // 2, len(cases) - 1)],
         "input_distribution": tags, "structural_enumeration": meta,
